@@ -195,6 +195,19 @@ func init() {
 				}
 			}
 		}
+		// a listed `X-or-later` id is reachable through its documented short spelling `X+` as well — also when `X` itself is on
+		// no list (GFDL-1.2-no-invariants-or-later) — alone, in lower case, in parentheses and in front of WITH
+		for _, id := range tblActive {
+			if b := strings.TrimSuffix(id, "-or-later"); b != id {
+				for _, sp := range []string{b + "+", strings.ToLower(b) + "+", "(" + b + "+)", b + "+ WITH " + tblExceptions[len(b)%len(tblExceptions)], b + "-or-later+"} {
+					valid(sp, true, "the '+' spelling of the listed id "+id+" is rejected")
+				}
+				res.Evaluations++
+				if r := implSat(b+"+", []string{id}); r.String() != "true" {
+					fail(failure{Stream: "oracle", What: "the '+' spelling of a listed -or-later id is not satisfied by the listed id", Case: &kase{Expr: b + "+", ExprHex: hx(b + "+"), Allowed: []string{id}}, Impl: r.String(), Expected: "true"})
+				}
+			}
+		}
 		for _, e := range tblExceptions {
 			nontrivial(e)
 			valid("MIT WITH "+e, true, "an exception id is rejected after WITH")
@@ -441,6 +454,14 @@ func (c *call) String() string {
 	return fmt.Sprintf("%s(%s, %s)", []string{"Satisfies", "ExtractLicenses", "ValidateLicenses"}[c.fn], show(c.expr), joinShow(c.list))
 }
 
+// wideCaseRefs: seven references equal up to letter case, ANDed with OR groups that make n alternatives (7n in all)
+func wideCaseRefs(n int) string {
+	refs := []string{"LicenseRef-Acme-EULA", "LicenseRef-ACME-EULA", "LicenseRef-acme-eula", "LicenseRef-Acme-Eula", "LicenseRef-aCME-eULA", "DocumentRef-D:LicenseRef-acme-eula", "DocumentRef-d:LicenseRef-acme-eula"}
+	rng.Shuffle(len(refs), func(i, j int) { refs[i], refs[j] = refs[j], refs[i] })
+	wide, _ := wideAnd("("+strings.Join(refs, " OR ")+")", n)
+	return wide
+}
+
 func genWorkload(n int) []*call {
 	var w []*call
 	for i := 0; i < n; i++ {
@@ -502,6 +523,15 @@ func genWorkload(n int) []*call {
 			w = append(w, &call{fn: 1, expr: e})
 		}
 		w = append(w, &call{fn: 0, expr: e, list: []string{ts[1]}})
+	}
+	// user-defined references that are equal up to letter case, in an expression with MANY alternatives (a second route "above
+	// N alternatives" that collects terms in a map and orders them with a case-insensitive key): extracted several times
+	for _, n := range []int{160, 700} {
+		e := wideCaseRefs(n)
+		for j := 0; j < 4; j++ {
+			w = append(w, &call{fn: 1, expr: e})
+		}
+		w = append(w, &call{fn: 0, expr: e, list: []string{"LicenseRef-ACME-EULA", "LicenseRef-wa1", "LicenseRef-wb0"}}, &call{fn: 0, expr: e, list: []string{"LicenseRef-acme-EULA", "LicenseRef-wa1", "LicenseRef-wb0"}})
 	}
 	// a valid list, then ONE entry that is that list joined by a separator (a cache keyed by the joined text cannot tell
 	// them apart; the joined entry is never valid)
@@ -872,6 +902,53 @@ func init() {
 				fail(*bad)
 			}
 		}
+		// (b6) LARGE EXPANSIONS AT THE SAME MOMENT (a budget for the expansion kept in a package-level counter is shared by the
+		// calls that overlap): several goroutines expand expressions of 27 000 – 64 000 alternatives at once
+		{
+			grp := func(p string, n int) string {
+				xs := make([]string, n)
+				for i := range xs {
+					xs[i] = "LicenseRef-" + p + itoa(i)
+				}
+				return "(" + strings.Join(xs, " OR ") + ")"
+			}
+			e64, e27 := grp("a", 40)+" AND "+grp("b", 40)+" AND "+grp("c", 40), grp("a", 30)+" AND "+grp("b", 30)+" AND "+grp("c", 30)
+			big := []*call{{fn: 0, expr: e64, list: []string{"LicenseRef-a1", "LicenseRef-b39", "LicenseRef-c7"}}, {fn: 0, expr: e27, list: []string{"LicenseRef-a1", "LicenseRef-b2"}},
+				{fn: 1, expr: e27}, {fn: 0, expr: wideCaseRefs(5000), list: []string{"LicenseRef-acme-eula", "LicenseRef-wa25", "LicenseRef-wb70"}}}
+			want := make([]string, len(big))
+			for i, c := range big {
+				want[i] = c.run()
+			}
+			var wg sync.WaitGroup
+			var mu sync.Mutex
+			var bad *failure
+			rounds := scale(2, 6)
+			for gi := 0; gi < 8; gi++ {
+				wg.Add(1)
+				go func(gi int) {
+					defer wg.Done()
+					for r := 0; r < rounds; r++ {
+						for k := range big {
+							i := (k + gi) % len(big)
+							if got := big[i].run(); got != want[i] {
+								mu.Lock()
+								if bad == nil {
+									bad = &failure{Stream: "oracle", What: "with several goroutines expanding large expressions at once, a call returned a different result than the sequential call: " + show(got[:min(len(got), 80)]) + " instead of " + show(want[i][:min(len(want[i]), 80)]), Case: &kase{Expr: big[i].expr, ExprHex: hx(big[i].expr), Allowed: big[i].list, Extra: map[string]string{"fn": itoa(big[i].fn), "concurrent": "8 goroutines, expressions of 27000-64000 alternatives"}}, Impl: got[:min(len(got), 200)], Expected: want[i][:min(len(want[i]), 200)]}
+								}
+								mu.Unlock()
+								return
+							}
+						}
+					}
+				}(gi)
+			}
+			wg.Wait()
+			res.Evaluations += 8 * rounds * len(big)
+			countN("large_expansions_concurrent_calls", 8*rounds*len(big))
+			if bad != nil {
+				fail(*bad)
+			}
+		}
 		// (c) concurrency over shared argument slices
 		g := scale(32, 64)
 		for _, procs := range []int{runtime.NumCPU(), 2} {
@@ -1133,6 +1210,10 @@ type family struct {
 // Satisfies is measured
 func (f family) refused() bool { return strings.HasPrefix(f.name, "refused-") }
 
+// oddByteSeqs: control characters, Unicode spaces and marks in UTF-8, lone / truncated / invalid UTF-8 bytes
+var oddByteSeqs = []string{"\t", "\n", "\r", "\r\n", "\v", "\f", "\x00", "\x1f", "\x7f", "\xc2\xa0", "\xc2\xa9", "\xc2\x80", "\xc2\xbf", "\xc2", "\xc2M", "\xc2 ", "\xc3\xa9", "\xc2\x85",
+	"\xe2\x80\x8b", "\xe2\x80\xa8", "\xe2\x80\x83", "\xe3\x80\x80", "\xef\xbb\xbf", "\xf0\x9f\x98\x80", "\xe2\x80", "\xe2", "\xf0\x9f", "\xff", "\x80", "\xa0", "\xc0\x80", "\xed\xa0\x80"}
+
 func rep(s, sep string, n int) string {
 	parts := make([]string, n)
 	for i := range parts {
@@ -1243,6 +1324,30 @@ func families() []family {
 		{"refused-deep-nest-syntax-error", func(n int) (string, []string) {
 			return "MIT AND " + strings.Repeat("(", n) + "ISC OR :", []string{"MIT"}
 		}, scale(64, 256), 0},
+		// a parenthesised group followed by WITH (refused: WITH belongs to a single licence), the group holding n references and
+		// one plain licence at its end (code that distributes the exception over the group walks it)
+		{"refused-group-with-exception", func(n int) (string, []string) {
+			p := make([]string, n)
+			for i := range p {
+				p[i] = "LicenseRef-g" + strconv.Itoa(i)
+			}
+			return "(" + strings.Join(p, " OR ") + " OR MIT) WITH Classpath-exception-2.0", []string{"MIT"}
+		}, scale(64, 256), 0},
+		// bytes that are not part of the expression language, one sequence per measurement, between / before / after terms and
+		// behind an operator: rejected at once (a loop that skips "white space" byte by byte must advance on every byte)
+		{"refused-odd-bytes", func(n int) (string, []string) {
+			sq := oddByteSeqs[((n-1)/2)%len(oddByteSeqs)]
+			switch ((n - 1) / 2 / len(oddByteSeqs)) % 4 {
+			case 0:
+				return "MIT " + sq + " ISC", []string{"MIT"}
+			case 1:
+				return sq + "MIT", []string{"MIT"}
+			case 2:
+				return "MIT AND " + sq + "ISC", []string{"MIT"}
+			default:
+				return "MIT" + sq, []string{"MIT"}
+			}
+		}, 8*len(oddByteSeqs) - 1, 2},
 		{"or-left-nested", func(n int) (string, []string) {
 			e := id(0)
 			for i := 1; i <= n; i++ {
@@ -1545,6 +1650,12 @@ func init() {
 					statsOf = strings.ReplaceAll(e, " AND ", " OR ")
 					if strings.HasSuffix(e, ":") { // an INVALID expression: take the counts from the valid text with the same tokens
 						statsOf = strings.TrimSuffix(statsOf, ":") + "MIT" + strings.Repeat(")", strings.Count(e, "("))
+					}
+					if strings.Contains(e, ") WITH ") {
+						statsOf = strings.Replace(statsOf, ") WITH ", ") OR MIT WITH ", 1)
+					}
+					if f.name == "refused-odd-bytes" {
+						statsOf = "MIT OR ISC OR Zlib"
 					}
 				}
 				ks, ok := modelStats(statsOf)
